@@ -8,7 +8,10 @@ import AsyncsshModel.Base.Hex
      cbKey, cbCa     : 0/1 answers of validate_host_public_key / validate_host_ca_key
      algopt          : unset | default | e:<alg,alg,...>
      keyalgs         : algorithm names of the trusted keys in match order, or '-'
-     creds           : server credentials ';'-separated, each  <alg,alg,...>|<presented>|<signer>
+     creds           : server credentials ';'-separated, each
+                         <alg,alg,...>|<presented>|<signer>|<alg,...: blob fits>|<alg,...: signature names it>
+                       (the last two: the host key algorithms of the credential with which the presented blob can
+                       be used / for which the signature names the right signature algorithm; '-' = none)
                        presented: K<id> | G | X | C<key>.<ca>.<type>.<after>.<before>.<princ hex,...|->
                        signer   : <id> genuine signature by that key over the exchange hash | x garbage |
                                   r<id> signature by that key over another hash (replay)
@@ -69,13 +72,19 @@ def parseSigner (s : String) : Option DSig :=
   | 'r' :: r => (String.ofList r).toNat?.map fun k => some (k, theHash + 1)
   | _ => s.toNat?.map fun k => some (k, theHash)
 
-def parseCred (s : String) : Option (List String × Presented × DSig) :=
+def parseAlgList (s : String) : List String := if s == "-" then [] else splitOn1 s ","
+
+def parseCred (s : String) : Option (List String × Presented × DSig × List String × List String) :=
   match s.splitOn "|" with
-  | [a, p, g] => do
+  | [a, p, g, ka, sa] => do
     let p ← parsePresented p
     let g ← parseSigner g
-    pure (splitOn1 a ",", p, g)
+    pure (splitOn1 a ",", p, g, parseAlgList ka, parseAlgList sa)
   | _ => none
+
+/-- the host key algorithm negotiated: the earliest client algorithm some server credential is registered for -/
+def negotiatedAlg (clientAlgs : List String) (serverCreds : List (List String)) : Option String :=
+  clientAlgs.find? fun a => serverCreds.any (·.contains a)
 
 def parseLetters (s : String) : Option (List (Ev Nat DSig)) :=
   s.toList.mapM fun c => match c with
@@ -113,6 +122,7 @@ def outTok : Out Nat → String
 def errName : Err → String
   | .hostKeyNotVerifiable r => "HostKeyNotVerifiable:" ++ r.name
   | .keyExchangeFailed => "KeyExchangeFailed:sig"
+  | .sigAlgMismatch => "KeyExchangeFailed:sigalg"
   | .protocolError => "ProtocolError"
   | .serviceNotAvailable => "ServiceNotAvailable"
   | .permissionDenied => "PermissionDenied"
@@ -146,10 +156,14 @@ def doCase (ws : List String) : Option String :=
     let head := s!"lookup={hex (strBytes lh)}:{match lp with | some p => toString p | none => "none"} " ++
       s!"algs={commaOr algs} "
     match chosen with
-    | none => pure (head ++ "chosen=none verdict=- cb=none trace=- err=KeyExchangeFailed:noalg")
+    | none =>
+      -- the client finds no common host key algorithm itself and sends DISCONNECT
+      pure (head ++ s!"chosen=none verdict=- cb=none trace={Gen.C04.msgDisconnect} err=KeyExchangeFailed:noalg")
     | some i =>
-      let (_, pres, sg) := creds.getD i ([], .garbage, none)
-      let cfg : Cfg Nat DSig := ⟨trust, app, lh, addr, port, dverify⟩
+      let (_, pres, sg, fits, named) := creds.getD i ([], .garbage, none, [], [])
+      let neg := (negotiatedAlg algs (creds.map (·.1))).getD ""
+      let cfg : Cfg Nat DSig := ⟨trust, app, lh, addr, port, dverify, fun _ => fits.contains neg,
+        fun _ => named.contains neg⟩
       let evs : List (Ev Nat DSig) :=
         [.kexInit] ++ script.1 ++ [.kexReply pres theHash sg now4] ++ script.2 ++ [.newkeys, .serviceAccept true]
           ++ (match rekey with
@@ -158,11 +172,13 @@ def doCase (ws : List String) : Option String :=
       let outs := run cfg St.init evs
       -- the verdict / callback columns describe the reply only when the script did not already end the connection
       let reached := (final cfg St.init ([.kexInit] ++ script.1)).closed == false
-      let verdict := if !reached then "-" else
+      -- (a blob that does not fit the negotiated algorithm is refused before the trust decision is taken)
+      let misfit := pres != .garbage && !fits.contains neg
+      let verdict := if !reached then "-" else if misfit then "rej:" ++ Reject.algMismatch.name else
         match validateHostKey trust app lh addr port now4 pres with
         | .ok k => s!"ok:{k}"
         | .error r => "rej:" ++ r.name
-      let cb := if !reached then "none" else
+      let cb := if !reached || misfit then "none" else
         match consulted trust pres with
         | .none => "none"
         | .hostKey k => s!"key:{k}"
